@@ -245,6 +245,16 @@ def _check_time_index(rows, cols, shape):
     while X[0] == 'meth' and X[1] in ('reshape', 'ravel', 'flatten'):
         X = X[2]
     n = _time_index_form(X)
+    if n is None:
+        # not one of the known spellings: evaluate the construction on two tiny shapes - it must list, for every
+        # element of the row-major [samples x imfs] array, its sample index
+        from ..smallarr import flat_index_of_axis0, Undecided as _U
+        try:
+            if flat_index_of_axis0(cols[1], 2):
+                cand = [t for t in subterms(cols[1]) if _is_shape0(t)]
+                n = cand[0] if cand else None
+        except _U:
+            n = None
     if n is not None:
         if shape is not None and shape[0] == 'tuple' and len(shape[1]) == 2:
             w = shape[1][1]
